@@ -25,7 +25,9 @@ func TestZZLongHalfClosedVerdict(t *testing.T) {
 			vkit.Case("known:"+f.key, false, "")
 			continue
 		}
-		if j.c.Long != nil {
+		if j.c.Socks != nil {
+			vkit.Case("tcp:socks5-listener/connect-session-beyond-handshake-deadline", true, "socks/long")
+		} else if j.c.Long != nil {
 			vkit.Case("tcp:long-lived-half-closed/first-to-close="+j.c.Long.FirstToClose, true, "long/"+j.c.Long.FirstToClose)
 		} else {
 			vkit.Case("limited+tcp:slow(outlasts-the-initial-bucket)/"+j.c.TCP.Steps[0].Op, true, "slowlimit/"+j.c.TCP.Steps[0].Op)
